@@ -49,6 +49,13 @@ func RunXUse(out string, seed int64, n int) (*Summary, error) {
     options:
       allowed_email_addresses:
         - boss@corp.test
+- service: ops
+  default:
+    from: ops.%[1]s:8443
+    to: %[2]s
+    options:
+      allowed_email_addresses:
+        - boss@corp.test
 - service: sandbox
   default:
     from: (?i)^([a-z0-9-]+)\.xuse\.test$
@@ -75,8 +82,10 @@ func RunXUse(out string, seed int64, n int) (*Summary, error) {
 		return "pAyRoLl." + z
 	}
 	// independent matcher: exact string for the simple route, otherwise the rewrite route
+	// (a Host with a port is another Host: ops.<zone>:8443 is a simple route of its own, ops.<zone> falls to the rewrite route)
+	opsPort, opsPlain := "ops."+z+":8443", "ops."+z
 	upstreamOf := func(h string) string {
-		if h == strict {
+		if h == strict || h == opsPort {
 			return "strict"
 		}
 		return "lax"
@@ -105,6 +114,12 @@ func RunXUse(out string, seed int64, n int) (*Summary, error) {
 		if i%3 == 2 {
 			forHost, atHost = strict, variant
 			email = "boss@corp.test"
+		}
+		if i%4 == 3 {
+			forHost, atHost, email = opsPlain, opsPort, "intern@corp.test"
+			if r.Intn(3) == 0 {
+				forHost, atHost, email = opsPort, opsPlain, "boss@corp.test"
+			}
 		}
 		ln := XLine{Ev: "xuse", Case: i, ForHost: forHost, AtHost: atHost, SameUp: upstreamOf(forHost) == upstreamOf(atHost), Reached: "none"}
 		var val string
